@@ -4,6 +4,7 @@ from __future__ import annotations
 import ast
 
 from ..core import Ctx
+from ..loader import AnalysisError
 from ..normform import equal
 from ..stmts import check_side_paths
 from ..symex import SUMMARIZER, expand, strip_ifexp_paths, u, main_leaf, main_path, side_paths
@@ -31,6 +32,10 @@ def run(ctx: Ctx):
     orientation(ctx)
     definedness(ctx)
     median_piecewise(ctx)
+    from .common import no_shared_writes
+
+    no_shared_writes(ctx, "no-shared-write")
+    deviation_form(ctx)
 
 
 def strand(ctx: Ctx):
@@ -269,3 +274,63 @@ def median_piecewise(ctx: Ctx):
         ctx.ob("median.tie-test", where + " [tie branch]", [u(h)[:90] for h in held][-1:], "cumulative share at the half-point == 0.5 (exactly)", ok, why or "the mean of two neighbouring values is reported only when EXACTLY half are at or below the lower one")
     ctx.count("median tie tests", n_ties)
     ctx.require_min("median tie tests", 1)
+
+
+# --------------------------------------------------------------------------- variance from deviations, not from raw squares
+_DEV_CONTROL = """
+def bad(counts, values, scale_mean):
+    return (counts @ pow(values, 2) - 2 * scale_mean * (counts @ values) + pow(scale_mean, 2) * np.sum(counts, axis=1)) / np.sum(counts, axis=1)
+
+def good(counts, values, scale_mean):
+    return np.nansum(counts * pow(values - scale_mean.reshape(-1, 1), 2), axis=1) / np.sum(counts, axis=1)
+"""
+
+
+def _raw_squares(fn: ast.AST, mean_names=("scale_mean", "mean", "scale_means")):
+    from ..stmts import resolver
+
+    res = resolver(fn, multi=True)
+    """Squares whose operand is NOT a deviation from the mean: `values ** 2`, `pow(values, 2)`, `np.square(values)`.
+    The square of the mean itself (`pow(scale_mean, 2)`) is the companion term of the same expanded form."""
+    out = []
+    for n in ast.walk(fn):
+        operand = None
+        if isinstance(n, ast.BinOp) and isinstance(n.op, ast.Pow) and isinstance(n.right, ast.Constant) and n.right.value == 2:
+            operand = n.left
+        elif isinstance(n, ast.Call) and u(n.func) in ("pow", "np.power") and len(n.args) == 2 and isinstance(n.args[1], ast.Constant) and n.args[1].value == 2:
+            operand = n.args[0]
+        elif isinstance(n, ast.Call) and u(n.func) == "np.square" and n.args:
+            operand = n.args[0]
+        if operand is None:
+            continue
+        # locals substituted: `deviations = v - mean; deviations ** 2` squares a deviation
+        variants = res(operand)
+        has_sub = any(isinstance(x, ast.BinOp) and isinstance(x.op, ast.Sub) for v in variants for x in ast.walk(v))
+        if not has_sub:
+            out.append(u(n)[:60])
+    return out
+
+
+def deviation_form(ctx: Ctx):
+    """"Population standard deviation of the respondents' values" for ANY numeric values (date codes, amounts): the
+    variance must be accumulated from DEVIATIONS, sum(c (v - mean)^2).  The algebraically equal expanded form
+    sum(c v^2) - 2 mean sum(c v) + mean^2 sum(c) subtracts quantities of size N v^2 and cancels catastrophically when
+    the values are large against their spread (NORM cannot tell the two apart: it works over exact rationals)."""
+    tree = ast.parse(_DEV_CONTROL)
+    if [len(_raw_squares(f)) for f in tree.body] != [2, 0]:
+        raise AnalysisError("deviation-form lint: the positive control is no longer recognised")
+    from ..stmts import reachable_functions
+
+    n = 0
+    for short, cname, members in ((MM, "_ScaleMeanStddev", ("_rows_weighted_mean_stddev", "_columns_weighted_mean_stddev")), (SM, "_ScaledCounts", ("_scale_variance",))):
+        ci = ctx.repo.cls(short, cname)
+        for member in members:
+            for fn in reachable_functions(ctx.repo, ci, member):
+                n += 1
+                raw = _raw_squares(fn)
+                where = f"{short}::{cname}.{fn.name}"
+                if raw:
+                    ctx.violated("deviation-form", where, raw, "squares of deviations (v - mean)", "expanded-square variance: catastrophic cancellation for numeric values that are large against their spread")
+                else:
+                    ctx.held("deviation-form", where, "every squared quantity is a deviation from the mean", "")
+    ctx.count("variance helpers scanned", n)
